@@ -14,7 +14,7 @@ func init() {
 	register(&Property{
 		ID:          "C16",
 		Engines:     []string{"cfg", "lockset"},
-		Explanation: "Deadline bookkeeping (timing itself is wall-clock and not decidable): a timer is created only on the field-is-nil edge and stored in that field, otherwise Reset; every Stop clears the field; all under Conn.mux, and the field addresses flow only to setDeadline (O1); the duration is time.Until(t) of the caller's t and a zero t takes the clear edge (O2); each timer's callback closes with its own timeout error (O3); closeWithError stops and clears both timers in the critical section that sets closed (O4); Write/Writev stop and clear the write timer on the queue-empty edge before unlocking (O5); the keep-alive renewal sites exist and use time.Now().Add(KeepaliveTime) (O6). DialAsyncTimeout arms the dial timer before the connection is registered with its poller (O7). The dial completion clears the dial timer before the user's callback (O8). The dial timer is armed only for a pending connect (O11). Handshake deadline cleared (O12); timer sites independent of the queue (O13); ClientConn.onResponse deadlines (O14); renewal on every message (O15).",
+		Explanation: "Deadline bookkeeping (timing itself is wall-clock and not decidable): a timer is created only on the field-is-nil edge and stored in that field, otherwise Reset; every Stop clears the field; all under Conn.mux, and the field addresses flow only to setDeadline (O1); the duration is time.Until(t) of the caller's t and a zero t takes the clear edge (O2); each timer's callback closes with its own timeout error (O3); closeWithError stops and clears both timers in the critical section that sets closed (O4); Write/Writev stop and clear the write timer on the queue-empty edge before unlocking (O5); the keep-alive renewal sites exist and use time.Now().Add(KeepaliveTime) (O6). DialAsyncTimeout arms the dial timer before the connection is registered with its poller (O7). The dial completion clears the dial timer before the user's callback (O8). The dial timer is armed only for a pending connect (O11). Handshake deadline cleared (O12); timer sites independent of the queue (O13); ClientConn.onResponse deadlines (O14); renewal on every message (O15). flush cancels the write deadline on its drained edge (O17).",
 		NotCovered:  "timing; the race between a firing timer and Reset; the HTTP client's per-request deadlines (ClientConn.onResponse)",
 		Run:         runC16,
 	})
@@ -64,6 +64,8 @@ func runC16(c *Ctx) {
 	c16Round5(c)
 	c.Rule("C16.O16", "E4", "a client request's deadline is armed on the connection that is read: ClientConn.Do sets the read deadline on ClientConn.conn on the Timeout > 0 edge both for a request on an open connection and for the request that dials (a deadline set on the std connection before the transfer to the poller is lost with it)", 1)
 	c16ClientDeadline(c)
+	c.Rule("C16.O17", "E4,E1", "flush cancels the write deadline on the edge on which it has drained the queue (the write the deadline was set for is complete), under Conn.mux", 1)
+	c16FlushMeetsTheDeadline(c)
 	c.Rule("C16.O6", "E5,E4", "keep-alive renewal sites exist and pass time.Now().Add(<engine>.KeepaliveTime)", 7)
 
 	L := c.Locks()
